@@ -55,6 +55,20 @@ Theorem C13_alias_variant_refuted : exists h src dst ws,
   let '(h1, r) := transfer true src dst h in hread r (apply_writes ws h1) <> hread src h.
 Proof. exact alias_not_isolated. Qed.
 
+(* Metadata is copied when it is set (metadata.Join): later writes by the handler to the map it
+   passed to SetHeader / SendHeader / SetTrailer do not change what the stream holds.  (In the
+   scenario model metadata are values: a step carries the map's contents at call time.) *)
+Theorem C13_metadata_copied_at_set_time : forall cur a h ws,
+  (cur = None \/ exists v, cur = Some (MVal v)) ->
+  mget (md_set false cur a h) (apply_mwrites ws h) =
+  (match cur with None => [] | Some t => mget t h end) ++ mread a h.
+Proof. exact md_copied_at_set_time. Qed.
+Print Assumptions C13_metadata_copied_at_set_time.
+
+Theorem C13_metadata_alias_variant_refuted : exists a h ws,
+  mget (md_set true None a h) (apply_mwrites ws h) <> mread a h.
+Proof. exact md_alias_not_copied. Qed.
+
 (* what the judge computes on the models' own output is verdict 0 *)
 Theorem C13_judge_sound : forall sc,
   wf sc = true -> no_known sc = true ->
